@@ -1088,8 +1088,11 @@ impl<T: RadixSortable> AdvancedRadixSort<T> {
     /// Select the optimal sorting strategy based on data characteristics
     fn select_strategy(&self, data: &[T]) -> Result<SortingStrategy> {
         // If a specific strategy is forced, use it
+        // `Some(Adaptive)` means "choose adaptively", exactly like `None`
         if let Some(strategy) = self.config.force_strategy {
-            return Ok(strategy);
+            if strategy != SortingStrategy::Adaptive {
+                return Ok(strategy);
+            }
         }
 
         // If adaptive strategy is disabled, default to LSD radix sort
